@@ -845,6 +845,13 @@ func (p *parser) parseCaseExpr(expr []byte) (l, r []byte, sl, sr bool, op op) {
 			r = bytealg.Trim(m[3], space)
 			sr = isStatic(r)
 		}
+		// Quoted literals are compared by their contents, like in the conditions.
+		if len(l) > 0 {
+			l = bytealg.Trim(l, quotes)
+		}
+		if len(r) > 0 {
+			r = bytealg.Trim(r, quotes)
+		}
 	}
 	return
 }
